@@ -133,7 +133,7 @@ RecvEv(e) ==
                  \/ e.res = "reply" /\ CountTo(e.sent, e.src, InitTags) = 1 + Count(r.out, <<e.src, "init">>) - 1
                  \/ e.res = "initialized-reply" /\ CountTo(e.sent, e.src, {"init", "rot"}) = 1 + Count(r.out, <<e.src, "init">>)
   IN
-  /\ Chk({"C08"}, "recv-no-panic", e.res # "panic")
+  /\ Chk({"C08", "C09"}, "recv-no-panic", e.res # "panic")
   /\ Chk({"C09", "C01"}, "recv-dispatch", e.res = "panic" \/ plainSrc \/ e.res \in ResultsOf(route))
   \* C01 / C08 / C09: a fabricated datagram (not byte-identical to anything a node ever sent) is dropped: no reply,
   \* no interface write, no change of any table (unauthenticated plain sessions excepted)
